@@ -637,32 +637,76 @@ func privateFlowsOnlyToFile(v ssa.Value, depth int) (bool, string) {
 
 // derivesOnlyFromPublic: v is built from signer.Public() through the public-key encoders only.
 func derivesOnlyFromPublic(v ssa.Value, signer *ssa.Parameter, depth int) (bool, string) {
+	return derivesOnlyFromPublicR(v, signer, nil, depth)
+}
+
+// derivesOnlyFromPublicR: roots are further values known to be public material (a helper's parameters that its
+// caller bound to public material).
+func derivesOnlyFromPublicR(v ssa.Value, signer *ssa.Parameter, roots map[ssa.Value]bool, depth int) (bool, string) {
 	if depth > 10 {
 		return false, "too deep"
 	}
 	v = km.Unwrap(v)
+	if roots[v] {
+		return true, "public material handed in by the caller"
+	}
 	if cs, ok := km.ConstString(v); ok {
 		return true, "constant " + clipS(cs, 20)
 	}
 	switch x := v.(type) {
 	case *ssa.Phi:
 		for _, e := range x.Edges {
-			if ok, why := derivesOnlyFromPublic(e, signer, depth+1); !ok {
+			if ok, why := derivesOnlyFromPublicR(e, signer, roots, depth+1); !ok {
 				return false, why
 			}
 		}
 		return true, "all branches derive from signer.Public()"
 	case *ssa.Convert:
-		return derivesOnlyFromPublic(x.X, signer, depth+1)
+		return derivesOnlyFromPublicR(x.X, signer, roots, depth+1)
 	case *ssa.Extract:
-		return derivesOnlyFromPublic(x.Tuple, signer, depth+1)
+		return derivesOnlyFromPublicR(x.Tuple, signer, roots, depth+1)
 	case *ssa.Call:
 		if x.Common().IsInvoke() && x.Common().Method.Name() == "Public" && km.Unwrap(x.Common().Value) == ssa.Value(signer) {
 			return true, "signer.Public()"
 		}
 		switch km.CalleeFull(x.Common()) {
 		case "crypto/x509.MarshalPKIXPublicKey", "golang.org/x/crypto/ssh.NewPublicKey", "golang.org/x/crypto/ssh.MarshalAuthorizedKey", "encoding/pem.EncodeToMemory":
-			return derivesOnlyFromPublic(x.Common().Args[0], signer, depth+1)
+			return derivesOnlyFromPublicR(x.Common().Args[0], signer, roots, depth+1)
+		}
+		// a serialising helper of the client: its results derive only from the parameters the caller bound to
+		// public material
+		if g := km.StaticCallee(x.Common()); g != nil && g.Blocks != nil && g.Pkg != nil && strings.HasPrefix(g.Pkg.Pkg.Path(), km.ModPath) && depth < 6 {
+			inner := map[ssa.Value]bool{}
+			for i, a := range km.CallArgs(x.Common()) {
+				if i < len(g.Params) {
+					if ok, _ := derivesOnlyFromPublicR(a, signer, roots, depth+1); ok {
+						inner[g.Params[i]] = true
+					}
+				}
+			}
+			n := 0
+			okAll := true
+			why := ""
+			km.Instrs(g, func(in ssa.Instruction) {
+				ret, isRet := in.(*ssa.Return)
+				if !isRet || (g.Recover != nil && ret.Block() == g.Recover) {
+					return
+				}
+				rv := km.ReturnValues(ret)[0]
+				if km.IsNilConst(rv) {
+					return
+				}
+				n++
+				if ok, w := derivesOnlyFromPublicR(rv, nil, inner, depth+1); !ok {
+					okAll, why = false, w
+				}
+			})
+			if n > 0 && okAll {
+				return true, "serialised by " + g.Name() + " from public material only"
+			}
+			if why != "" {
+				return false, why + " (in " + g.Name() + ")"
+			}
 		}
 		return false, "result of " + km.CalleeShort(x.Common())
 	case *ssa.Alloc:
@@ -673,7 +717,7 @@ func derivesOnlyFromPublic(v ssa.Value, signer *ssa.Parameter, depth int) (bool,
 				for _, r2 := range *fa.Referrers() {
 					if st, ok := r2.(*ssa.Store); ok {
 						n++
-						if ok2, why := derivesOnlyFromPublic(st.Val, signer, depth+1); !ok2 {
+						if ok2, why := derivesOnlyFromPublicR(st.Val, signer, roots, depth+1); !ok2 {
 							return false, why
 						}
 					}
@@ -682,7 +726,7 @@ func derivesOnlyFromPublic(v ssa.Value, signer *ssa.Parameter, depth int) (bool,
 		}
 		return n > 0, "PEM block of public material"
 	case *ssa.MakeInterface:
-		return derivesOnlyFromPublic(x.X, signer, depth+1)
+		return derivesOnlyFromPublicR(x.X, signer, roots, depth+1)
 	}
 	return false, "value of unknown origin " + clipS(km.ValStr(v), 60)
 }
